@@ -208,6 +208,7 @@ StepP(P, cc) ==
            IF f.n \in DOMAIN fr.iv THEN
               (IF f.n \in fr.vf THEN Undef(c, "unsupported")   \* assignment to a val formal
                ELSE [Wr(c, <<"L", fr.id, f.n>>) EXCEPT !.fr[1].iv[f.n] = v.v, !.fr[1].df = @ \cup {f.n}, !.ctl = NoneV, !.k = rest])
+           ELSE IF f.n \in DOMAIN fr.rf \/ f.n \in DOMAIN fr.lv THEN Undef(c, "unsupported")      \* the name is an array formal or a local val here
            ELSE IF f.n \in DOMAIN c.g THEN [Wr(c, <<"G", f.n>>) EXCEPT !.g[f.n] = v.v, !.gdf = @ \cup {f.n}, !.ctl = NoneV, !.k = rest]
            ELSE Undef(c, "name")
       [] f.k = "seq" -> IF f.rest = <<>> THEN [c EXCEPT !.ctl = NoneV, !.k = rest]
